@@ -1,7 +1,1033 @@
-(* PosConvProofs.v — proofs about Model/PosConv.v (C08). *)
+(* PosConvProofs.v — proofs about Model/PosConv.v (C08).
+   Plan: every text splits as  P ++ rest  where P is a sequence of complete lines (`complete`: empty
+   or ending in '\n') — the code's newline-index vectors and the specification's skip_lines/walk_col
+   are both characterised on that decomposition, then compared. *)
 Require Import Base Suggestion PosConv ListLemmas SuggestionProofs.
 
-(* F9: "ab\ncd", position (1,0) denotes index 3 (the 'c'), position_to_index answers 0 *)
+(* ------------------------------------------------------------------------------------------ *)
+(*  vocabulary                                                                                  *)
+(* ------------------------------------------------------------------------------------------ *)
+Definition nonl (s : text) : Prop := Forall (fun c => is_nl c = false) s.
+Definition complete (P : text) : Prop := P = [] \/ exists P', P = P' ++ [NL].
+
+Lemma is_nl_NL : is_nl NL = true.
+Proof. reflexivity. Qed.
+
+Lemma is_nl_true c : is_nl c = true -> c = NL.
+Proof. unfold is_nl, NL. intros H. now apply N.eqb_eq in H. Qed.
+
+Lemma len_utf16_pos c : 1 <= len_utf16 c.
+Proof. unfold len_utf16. destruct (c <? 65536)%N; lia. Qed.
+
+Lemma len_utf16_le2 c : len_utf16 c <= 2.
+Proof. unfold len_utf16. destruct (c <? 65536)%N; lia. Qed.
+
+Lemma nonl_nil : nonl [].
+Proof. constructor. Qed.
+
+Lemma nonl_cons c s : is_nl c = false -> nonl s -> nonl (c :: s).
+Proof. intros; now constructor. Qed.
+
+Lemma nonl_inv c s : nonl (c :: s) -> is_nl c = false /\ nonl s.
+Proof. intros H; inversion H; subst; now split. Qed.
+
+Lemma nonl_app a b : nonl a -> nonl b -> nonl (a ++ b).
+Proof. intros; now apply Forall_app. Qed.
+
+Lemma nonl_app_inv a b : nonl (a ++ b) -> nonl a /\ nonl b.
+Proof. intros H; now apply Forall_app in H. Qed.
+
+Lemma nonl_firstn k s : nonl s -> nonl (firstn k s).
+Proof.
+  intros H. rewrite <- (firstn_skipn k s) in H. now apply nonl_app_inv in H.
+Qed.
+
+Lemma nonl_skipn k s : nonl s -> nonl (skipn k s).
+Proof.
+  intros H. rewrite <- (firstn_skipn k s) in H. now apply nonl_app_inv in H.
+Qed.
+
+(* count_nl *)
+Lemma count_nl_cons c s : count_nl (c :: s) = (if is_nl c then 1 else 0) + count_nl s.
+Proof. unfold count_nl. cbn [filter]. destruct (is_nl c); reflexivity. Qed.
+
+Lemma count_nl_app a b : count_nl (a ++ b) = count_nl a + count_nl b.
+Proof. unfold count_nl. now rewrite filter_app, app_length. Qed.
+
+Lemma count_nl_nonl s : nonl s -> count_nl s = 0.
+Proof.
+  induction s as [|c s IH]; intros H; [reflexivity|].
+  apply nonl_inv in H as [Hc Hs]. rewrite count_nl_cons, Hc. now apply IH.
+Qed.
+
+Lemma count_nl_0_nonl s : count_nl s = 0 -> nonl s.
+Proof.
+  induction s as [|c s IH]; intros H; [constructor|].
+  rewrite count_nl_cons in H. destruct (is_nl c) eqn:E; [discriminate|].
+  apply nonl_cons; [exact E|apply IH; exact H].
+Qed.
+
+Lemma count_nl_snoc P : count_nl (P ++ [NL]) = S (count_nl P).
+Proof. rewrite count_nl_app. cbn. lia. Qed.
+
+Lemma complete_count_0 P : complete P -> count_nl P = 0 -> P = [].
+Proof.
+  intros [->|[P' ->]] H; [reflexivity|]. rewrite count_nl_snoc in H. discriminate.
+Qed.
+
+Lemma complete_nil : complete [].
+Proof. now left. Qed.
+
+Lemma complete_snoc P : complete (P ++ [NL]).
+Proof. right. now exists P. Qed.
+
+Lemma complete_cons c P : complete P -> P <> [] -> complete (c :: P).
+Proof.
+  intros [->|[P' ->]] Hne; [congruence|]. right. now exists (c :: P').
+Qed.
+
+Lemma complete_line_app P ln : complete (P ++ ln ++ [NL]).
+Proof. rewrite app_assoc. apply complete_snoc. Qed.
+
+(* sum_utf16 *)
+Lemma sum_utf16_cons c s : sum_utf16 (c :: s) = len_utf16 c + sum_utf16 s.
+Proof. reflexivity. Qed.
+
+Lemma sum_utf16_app a b : sum_utf16 (a ++ b) = sum_utf16 a + sum_utf16 b.
+Proof.
+  induction a as [|c a IH]; [reflexivity|].
+  cbn [app]. rewrite !sum_utf16_cons, IH. lia.
+Qed.
+
+Lemma sum_utf16_0 s : sum_utf16 s = 0 -> s = [].
+Proof.
+  destruct s as [|c s]; [reflexivity|]. rewrite sum_utf16_cons.
+  pose proof (len_utf16_pos c). lia.
+Qed.
+
+Lemma sum_utf16_ge_length s : length s <= sum_utf16 s.
+Proof.
+  induction s as [|c s IH]; [cbn; lia|]. rewrite sum_utf16_cons. cbn [length].
+  pose proof (len_utf16_pos c). lia.
+Qed.
+
+(* ------------------------------------------------------------------------------------------ *)
+(*  decomposition of a text into complete lines and a rest                                      *)
+(* ------------------------------------------------------------------------------------------ *)
+
+(* the first line of r: either r has no newline, or r = ln ++ '\n' :: r' with ln newline-free *)
+Lemma first_line (r : text) :
+  nonl r \/ exists ln r', r = ln ++ NL :: r' /\ nonl ln.
+Proof.
+  induction r as [|c r IH]; [left; constructor|].
+  destruct (is_nl c) eqn:E.
+  - right. exists [], r. split; [|constructor]. apply is_nl_true in E. now subst.
+  - destruct IH as [H|[ln [r' [-> Hln]]]].
+    + left. now apply nonl_cons.
+    + right. exists (c :: ln), r'. split; [reflexivity|now apply nonl_cons].
+Qed.
+
+(* the text before index-of-line l: P is l complete lines, or there are fewer than l newlines *)
+Lemma split_at_line (t : text) (l : nat) :
+  (exists P r, t = P ++ r /\ complete P /\ count_nl P = l) \/ count_nl t < l.
+Proof.
+  induction l as [|l IH].
+  - left. exists [], t. repeat split. apply complete_nil.
+  - destruct IH as [[P [r [-> [HP Hc]]]]|Hlt]; [|right; lia].
+    destruct (first_line r) as [Hr|[ln [r' [-> Hln]]]].
+    + right. rewrite count_nl_app, (count_nl_nonl r Hr). lia.
+    + left. exists (P ++ ln ++ [NL]), r'. split; [|split].
+      * now rewrite <- !app_assoc.
+      * apply complete_line_app.
+      * rewrite app_assoc, count_nl_snoc, count_nl_app, (count_nl_nonl ln Hln). lia.
+Qed.
+
+(* a prefix `before` = complete lines ++ an unfinished line *)
+Lemma split_last_line (b : text) :
+  exists P ln, b = P ++ ln /\ complete P /\ nonl ln.
+Proof.
+  induction b as [|c b IH] using rev_ind.
+  - exists [], []. repeat split; [apply complete_nil|constructor].
+  - destruct IH as [P [ln [-> [HP Hln]]]].
+    destruct (is_nl c) eqn:E.
+    + apply is_nl_true in E. subst c.
+      exists ((P ++ ln) ++ [NL]), []. split; [now rewrite app_nil_r|]. split; [apply complete_snoc|constructor].
+    + exists P, (ln ++ [c]). split; [now rewrite app_assoc|]. split; [exact HP|].
+      apply nonl_app; [exact Hln|]. apply nonl_cons; [exact E|constructor].
+Qed.
+
+(* a non-empty sequence of complete lines ends in a complete line *)
+Lemma complete_last_line (P : text) :
+  complete P -> P <> [] -> exists Q ln0, P = Q ++ ln0 ++ [NL] /\ complete Q /\ nonl ln0.
+Proof.
+  intros [->|[P' ->]] Hne; [congruence|].
+  destruct (split_last_line P') as [Q [ln0 [-> [HQ Hln0]]]].
+  exists Q, ln0. split; [now rewrite app_assoc|]. now split.
+Qed.
+
+(* ------------------------------------------------------------------------------------------ *)
+(*  the newline-index vector                                                                    *)
+(* ------------------------------------------------------------------------------------------ *)
+Lemma nli_app b x y :
+  newline_indices_from b (x ++ y) = newline_indices_from b x ++ newline_indices_from (b + length x) y.
+Proof.
+  revert b. induction x as [|c x IH]; intros b.
+  - cbn. now rewrite Nat.add_0_r.
+  - cbn [app newline_indices_from length]. rewrite IH.
+    replace (S b + length x) with (b + S (length x)) by lia.
+    destruct (is_nl c); reflexivity.
+Qed.
+
+Lemma nli_nonl b s : nonl s -> newline_indices_from b s = [].
+Proof.
+  revert b. induction s as [|c s IH]; intros b H; [reflexivity|].
+  apply nonl_inv in H as [Hc Hs]. cbn [newline_indices_from]. rewrite Hc. now apply IH.
+Qed.
+
+Lemma nli_length b s : length (newline_indices_from b s) = count_nl s.
+Proof.
+  revert b. induction s as [|c s IH]; intros b; [reflexivity|].
+  cbn [newline_indices_from]. rewrite count_nl_cons.
+  destruct (is_nl c); cbn [length]; rewrite IH; reflexivity.
+Qed.
+
+Lemma nli_line b ln r :
+  nonl ln ->
+  newline_indices_from b (ln ++ NL :: r) = S (b + length ln) :: newline_indices_from (S (b + length ln)) r.
+Proof.
+  intros H. rewrite nli_app, (nli_nonl b ln H). cbn [app newline_indices_from]. now rewrite is_nl_NL.
+Qed.
+
+Lemma last_snoc {A} (l : list A) x d : last (l ++ [x]) d = x.
+Proof. apply last_last. Qed.
+
+(* the vector of a sequence of complete lines ends with its length *)
+Lemma nli_complete_last b P d :
+  complete P -> last (newline_indices_from b P) d = match P with [] => d | _ => b + length P end.
+Proof.
+  intros [->|[P' ->]]; [reflexivity|].
+  rewrite nli_app. cbn [newline_indices_from]. rewrite is_nl_NL.
+  rewrite last_snoc. rewrite app_length. cbn [length].
+  destruct (P' ++ [NL]) eqn:E; [now destruct P'|]. lia.
+Qed.
+
+Lemma nli_complete_last0 P : complete P -> last (newline_indices P) 0 = length P.
+Proof.
+  intros H. unfold newline_indices. rewrite (nli_complete_last 0 P 0 H). now destruct P.
+Qed.
+
+(* ------------------------------------------------------------------------------------------ *)
+(*  slices                                                                                      *)
+(* ------------------------------------------------------------------------------------------ *)
+Lemma slice_chk_ok {A} (l : list A) a b : a <= b -> b <= length l -> slice_chk l a b = Ok (slice l a b).
+Proof.
+  intros H1 H2. unfold slice_chk, slice.
+  destruct (b <? a) eqn:E1; [apply Nat.ltb_lt in E1; lia|].
+  destruct (length l <? b) eqn:E2; [apply Nat.ltb_lt in E2; lia|]. reflexivity.
+Qed.
+
+Lemma slice_mid {A} (x y z : list A) : slice (x ++ y ++ z) (length x) (length x + length y) = y.
+Proof.
+  unfold slice. rewrite skipn_app_exact by reflexivity.
+  replace (length x + length y - length x) with (length y) by lia.
+  now apply firstn_app_exact.
+Qed.
+
+Lemma slice_chk_mid {A} (x y z : list A) a b :
+  a = length x -> b = length x + length y -> slice_chk (x ++ y ++ z) a b = Ok y.
+Proof.
+  intros -> ->. rewrite slice_chk_ok; [now rewrite slice_mid|lia|rewrite !app_length; lia].
+Qed.
+
+(* ------------------------------------------------------------------------------------------ *)
+(*  index_to_position: characterisation, soundness, totality                                    *)
+(* ------------------------------------------------------------------------------------------ *)
+Lemma index_to_position_parts (P ln after : text) :
+  complete P -> nonl ln ->
+  index_to_position (P ++ ln ++ after) (length P + length ln) = Ok (count_nl P, sum_utf16 ln).
+Proof.
+  intros HP Hln. unfold index_to_position.
+  assert (slice_chk (P ++ ln ++ after) 0 (length P + length ln) = Ok (P ++ ln)) as ->.
+  { rewrite app_assoc. change ((P ++ ln) ++ after) with ([] ++ (P ++ ln) ++ after).
+    apply slice_chk_mid; [reflexivity|]. rewrite app_length. reflexivity. }
+  cbn [bind]. unfold newline_indices. rewrite nli_app, (nli_nonl _ ln Hln), app_nil_r.
+  rewrite nli_length. fold (newline_indices P). rewrite (nli_complete_last0 P HP).
+  rewrite (slice_chk_mid P ln after) by reflexivity. reflexivity.
+Qed.
+
+(* the specification side on the same decomposition *)
+Lemma skip_lines_line (P r : text) (l : nat) :
+  skip_lines (P ++ NL :: r) (S (count_nl P + l)) = skip_lines r l.
+Proof.
+  induction P as [|c P IH].
+  - cbn [app count_nl skip_lines]. now rewrite is_nl_NL.
+  - cbn [app]. rewrite count_nl_cons. destruct (is_nl c) eqn:E.
+    + cbn [skip_lines]. rewrite E. exact IH.
+    + cbn [skip_lines]. rewrite E. exact IH.
+Qed.
+
+Lemma skip_lines_complete (P r : text) : complete P -> skip_lines (P ++ r) (count_nl P) = Some r.
+Proof.
+  intros [->|[P' ->]].
+  - cbn. now destruct r.
+  - rewrite count_nl_snoc, <- app_assoc. cbn [app].
+    rewrite <- (Nat.add_0_r (count_nl P')). rewrite skip_lines_line. now destruct r.
+Qed.
+
+Lemma walk_col_prefix (ln after : text) :
+  nonl ln -> walk_col (ln ++ after) (sum_utf16 ln) = Some (length ln).
+Proof.
+  induction ln as [|c ln IH]; intros H.
+  - cbn. now destruct after.
+  - apply nonl_inv in H as [Hc Hl]. rewrite sum_utf16_cons. cbn [app].
+    pose proof (len_utf16_pos c) as Hp.
+    destruct (len_utf16 c + sum_utf16 ln) as [|n] eqn:En; [lia|].
+    cbn [walk_col]. rewrite Hc. rewrite <- En.
+    destruct (len_utf16 c + sum_utf16 ln <? len_utf16 c) eqn:E; [apply Nat.ltb_lt in E; lia|].
+    replace (len_utf16 c + sum_utf16 ln - len_utf16 c) with (sum_utf16 ln) by lia.
+    rewrite (IH Hl). reflexivity.
+Qed.
+
+Lemma resolve_parts (P ln after : text) :
+  complete P -> nonl ln ->
+  resolve (P ++ ln ++ after) (count_nl P, sum_utf16 ln) = Some (length P + length ln).
+Proof.
+  intros HP Hln. unfold resolve. cbn [fst snd].
+  rewrite (skip_lines_complete P (ln ++ after) HP). rewrite (walk_col_prefix ln after Hln).
+  f_equal. rewrite !app_length. lia.
+Qed.
+
+(* every index inside the text (or at its end) decomposes *)
+Lemma decompose_at (t : text) (i : nat) :
+  i <= length t ->
+  exists P ln after, t = P ++ ln ++ after /\ complete P /\ nonl ln /\ i = length P + length ln.
+Proof.
+  intros Hi. destruct (split_last_line (firstn i t)) as [P [ln [E [HP Hln]]]].
+  exists P, ln, (skipn i t). split; [|split; [exact HP|split; [exact Hln|]]].
+  - rewrite app_assoc, <- E. now rewrite firstn_skipn.
+  - rewrite <- app_length, <- E. rewrite firstn_length. lia.
+Qed.
+
+Theorem index_to_position_sound (t : text) (i : nat) :
+  i <= length t ->
+  exists p, index_to_position t i = Ok p /\ resolve t p = Some i.
+Proof.
+  intros Hi. destruct (decompose_at t i Hi) as [P [ln [after [-> [HP [Hln ->]]]]]].
+  exists (count_nl P, sum_utf16 ln). split.
+  - now apply index_to_position_parts.
+  - now apply resolve_parts.
+Qed.
+
+(* the position is the LSP one: line = number of newlines before i, character = UTF-16 length
+   (astral characters count 2) of the text between the last newline before i and i *)
+Theorem index_to_position_value (t : text) (i : nat) :
+  i <= length t ->
+  exists P ln, firstn i t = P ++ ln /\ complete P /\ nonl ln /\
+    index_to_position t i = Ok (count_nl (firstn i t), sum_utf16 ln).
+Proof.
+  intros Hi. destruct (decompose_at t i Hi) as [P [ln [after [-> [HP [Hln ->]]]]]].
+  exists P, ln.
+  assert (firstn (length P + length ln) (P ++ ln ++ after) = P ++ ln) as E.
+  { rewrite app_assoc. apply firstn_app_exact. now rewrite app_length. }
+  rewrite E. split; [reflexivity|]. split; [exact HP|]. split; [exact Hln|].
+  rewrite count_nl_app, (count_nl_nonl ln Hln), Nat.add_0_r.
+  now apply index_to_position_parts.
+Qed.
+
+Theorem index_to_position_total (t : text) (i : nat) :
+  i <= length t -> is_ok (index_to_position t i) = true.
+Proof.
+  intros Hi. destruct (index_to_position_sound t i Hi) as [p [E _]]. now rewrite E.
+Qed.
+
+(* and it panics exactly when the index lies beyond the text (the slice &source[0..index]) *)
+Theorem index_to_position_rejects (t : text) (i : nat) :
+  length t < i -> index_to_position t i = Panic PIndex.
+Proof.
+  intros Hi. unfold index_to_position, slice_chk.
+  destruct (length t <? i) eqn:E; [|apply Nat.ltb_ge in E; lia].
+  now rewrite orb_true_r.
+Qed.
+
+Theorem span_to_range_sound (t : text) (sp : span) :
+  span_in (length t) sp ->
+  exists pa pb, span_to_range t sp = Ok (pa, pb) /\
+    resolve t pa = Some (sstart sp) /\ resolve t pb = Some (send sp).
+Proof.
+  intros [H1 H2]. unfold span_to_range.
+  destruct (index_to_position_sound t (sstart sp)) as [pa [Ea Ra]]; [lia|].
+  destruct (index_to_position_sound t (send sp)) as [pb [Eb Rb]]; [lia|].
+  exists pa, pb. rewrite Ea, Eb. cbn [bind]. now repeat split.
+Qed.
+
+Theorem span_to_range_total (t : text) (sp : span) :
+  span_in (length t) sp -> is_ok (span_to_range t sp) = true.
+Proof.
+  intros H. destruct (span_to_range_sound t sp H) as [pa [pb [E _]]]. now rewrite E.
+Qed.
+
+(* ------------------------------------------------------------------------------------------ *)
+(*  position_to_index: the column loop                                                          *)
+(* ------------------------------------------------------------------------------------------ *)
+(* what position_to_index answers once line_start_idx and the line's characters are fixed *)
+Definition col_result (start : nat) (seg : text) (col : nat) : nat :=
+  match col_loop seg col 0 0 with
+  | inl k => start + k
+  | inr cols => if 0 <? cols then start + length seg else start
+  end.
+
+(* the target column is reached after exactly the characters of `pre`: the loop returns there *)
+Lemma col_loop_hit (pre : text) c rest target cols k0 :
+  cols + sum_utf16 pre = target ->
+  col_loop (pre ++ c :: rest) target cols k0 = inl (k0 + length pre).
+Proof.
+  revert cols k0. induction pre as [|d pre IH]; intros cols k0 H.
+  - cbn in H. cbn [app col_loop length]. rewrite Nat.add_0_r in H. subst.
+    rewrite Nat.eqb_refl. now rewrite Nat.add_0_r.
+  - rewrite sum_utf16_cons in H. pose proof (len_utf16_pos d) as Hp.
+    cbn [app col_loop]. destruct (cols =? target) eqn:E; [apply Nat.eqb_eq in E; lia|].
+    rewrite IH by lia. cbn [length]. f_equal. lia.
+Qed.
+
+(* the target column is not reached before the end of the segment: the loop falls through *)
+Lemma col_loop_miss (seg : text) target cols k0 :
+  cols + sum_utf16 seg <= target -> col_loop seg target cols k0 = inr (cols + sum_utf16 seg).
+Proof.
+  revert cols k0. induction seg as [|d seg IH]; intros cols k0 H.
+  - cbn. now rewrite Nat.add_0_r.
+  - rewrite sum_utf16_cons in *. pose proof (len_utf16_pos d) as Hp.
+    cbn [col_loop]. destruct (cols =? target) eqn:E; [apply Nat.eqb_eq in E; lia|].
+    rewrite IH by lia. f_equal. lia.
+Qed.
+
+Lemma col_loop_inl_bound (seg : text) target cols k0 k :
+  col_loop seg target cols k0 = inl k -> k0 <= k < k0 + length seg.
+Proof.
+  revert cols k0. induction seg as [|d seg IH]; intros cols k0 H; [discriminate|].
+  cbn [col_loop] in H. cbn [length]. destruct (cols =? target).
+  - injection H as <-. lia.
+  - apply IH in H. lia.
+Qed.
+
+Lemma col_result_bound start seg col : start <= col_result start seg col <= start + length seg.
+Proof.
+  unfold col_result. destruct (col_loop seg col 0 0) as [k|cols] eqn:E.
+  - apply col_loop_inl_bound in E. lia.
+  - destruct (0 <? cols); lia.
+Qed.
+
+Lemma col_result_0 start c seg : col_result start (c :: seg) 0 = start.
+Proof. unfold col_result. cbn. lia. Qed.
+
+(* a column that is the UTF-16 length of a prefix of the line, with something after the prefix *)
+Lemma col_result_inside start (pre : text) c rest :
+  col_result start (pre ++ c :: rest) (sum_utf16 pre) = start + length pre.
+Proof.
+  unfold col_result. rewrite (col_loop_hit pre c rest (sum_utf16 pre) 0 0) by reflexivity. reflexivity.
+Qed.
+
+(* the column at the very end of the segment *)
+Lemma col_result_end start (seg : text) : col_result start seg (sum_utf16 seg) = start + length seg.
+Proof.
+  unfold col_result. rewrite (col_loop_miss seg (sum_utf16 seg) 0 0) by (cbn; lia). cbn [plus].
+  destruct (0 <? sum_utf16 seg) eqn:E; [reflexivity|].
+  apply Nat.ltb_ge in E. assert (sum_utf16 seg = 0) as Z by lia.
+  apply sum_utf16_0 in Z. subst. cbn. lia.
+Qed.
+
+(* a column beyond the end of a non-empty segment: clamped to its end *)
+Lemma col_result_past start (seg : text) col :
+  seg <> [] -> sum_utf16 seg <= col -> col_result start seg col = start + length seg.
+Proof.
+  intros Hne H. unfold col_result. rewrite (col_loop_miss seg col 0 0) by (cbn; lia). cbn [plus].
+  destruct (0 <? sum_utf16 seg) eqn:E; [reflexivity|].
+  apply Nat.ltb_ge in E. assert (sum_utf16 seg = 0) as Z by lia.
+  apply sum_utf16_0 in Z. congruence.
+Qed.
+
+(* ------------------------------------------------------------------------------------------ *)
+(*  position_to_index: which line the two pops select                                           *)
+(* ------------------------------------------------------------------------------------------ *)
+Lemma p2i_unfold (t : text) (nl : list nat) (col : nat) seg (s e : nat) :
+  last nl (length t) = e -> last (removelast nl) 0 = s -> slice_chk t s e = Ok seg -> e = s + length seg ->
+  (let '(line_end_idx, nl1) := pop_or nl (length t) in
+   let '(line_start_idx, _) := pop_or nl1 0 in
+   do seg <- slice_chk t line_start_idx line_end_idx;
+   match col_loop seg col 0 0 with
+   | inl k => Ok (line_start_idx + k)
+   | inr cols => if 0 <? cols then Ok line_end_idx else Ok line_start_idx
+   end) = Ok (col_result s seg col).
+Proof.
+  intros He Hs Hseg Hlen. unfold pop_or. rewrite He, Hs, Hseg. cbn [bind]. unfold col_result.
+  destruct (col_loop seg col 0 0) as [k|cols]; [reflexivity|].
+  destruct (0 <? cols); [now rewrite Hlen|reflexivity].
+Qed.
+
+(* (A) line `line` exists and is terminated by a newline *)
+Lemma p2i_terminated (P ln r : text) (line col : nat) :
+  complete P -> count_nl P = line -> nonl ln ->
+  position_to_index (P ++ ln ++ NL :: r) line col = Ok (col_result (length P) (ln ++ [NL]) col).
+Proof.
+  intros HP Hc Hln. unfold position_to_index.
+  set (t := P ++ ln ++ NL :: r).
+  assert (firstn (line + 1) (newline_indices t) = newline_indices P ++ [S (length P + length ln)]) as Hnl.
+  { unfold t, newline_indices. rewrite nli_app. cbn [plus]. rewrite (nli_line (length P) ln r Hln).
+    rewrite firstn_app. rewrite nli_length, Hc.
+    rewrite firstn_all2 by (rewrite nli_length; lia).
+    replace (line + 1 - line) with 1 by lia. reflexivity. }
+  rewrite Hnl. apply p2i_unfold with (e := S (length P + length ln)).
+  - apply last_snoc.
+  - rewrite removelast_last. apply (nli_complete_last0 P HP).
+  - unfold t. change (NL :: r) with ([NL] ++ r). rewrite (app_assoc ln [NL] r).
+    apply slice_chk_mid; [reflexivity|]. rewrite app_length. cbn [length]. lia.
+  - rewrite app_length. cbn [length]. lia.
+Qed.
+
+(* (B) no newline in the text at all: the whole text, whatever the line number *)
+Lemma p2i_single_line (t : text) (line col : nat) :
+  nonl t -> position_to_index t line col = Ok (col_result 0 t col).
+Proof.
+  intros Ht. unfold position_to_index, newline_indices. rewrite (nli_nonl 0 t Ht).
+  rewrite firstn_nil. apply p2i_unfold with (e := length t).
+  - reflexivity.
+  - reflexivity.
+  - rewrite slice_chk_ok by lia. unfold slice. rewrite Nat.sub_0_r. cbn [skipn]. now rewrite firstn_all.
+  - reflexivity.
+Qed.
+
+(* (C) at least one but at most `line` newlines: the LAST TERMINATED line is selected, whatever
+   follows it — for line = count_nl t this is the line before the one asked for (F9) *)
+Lemma p2i_last_terminated (Q ln0 ln : text) (line col : nat) :
+  complete Q -> nonl ln0 -> nonl ln -> count_nl Q + 1 <= line ->
+  position_to_index (Q ++ ln0 ++ NL :: ln) line col = Ok (col_result (length Q) (ln0 ++ [NL]) col).
+Proof.
+  intros HQ Hln0 Hln Hc. unfold position_to_index.
+  set (t := Q ++ ln0 ++ NL :: ln).
+  assert (firstn (line + 1) (newline_indices t) = newline_indices Q ++ [S (length Q + length ln0)]) as Hnl.
+  { unfold t, newline_indices. rewrite nli_app. cbn [plus]. rewrite (nli_line (length Q) ln0 ln Hln0).
+    rewrite (nli_nonl _ ln Hln). apply firstn_all2.
+    rewrite app_length, nli_length. cbn [length]. lia. }
+  rewrite Hnl. apply p2i_unfold with (e := S (length Q + length ln0)).
+  - apply last_snoc.
+  - rewrite removelast_last. apply (nli_complete_last0 Q HQ).
+  - unfold t. change (NL :: ln) with ([NL] ++ ln). rewrite (app_assoc ln0 [NL] ln).
+    apply slice_chk_mid; [reflexivity|]. rewrite app_length. cbn [length]. lia.
+  - rewrite app_length. cbn [length]. lia.
+Qed.
+
+(* every (text, line) is in one of the three cases *)
+Lemma p2i_cases (t : text) (line : nat) :
+  (exists P ln r, t = P ++ ln ++ NL :: r /\ complete P /\ count_nl P = line /\ nonl ln)
+  \/ nonl t
+  \/ (exists Q ln0 ln, t = Q ++ ln0 ++ NL :: ln /\ complete Q /\ nonl ln0 /\ nonl ln /\ count_nl Q + 1 <= line).
+Proof.
+  destruct (split_last_line t) as [P [ln [-> [HP Hln]]]].
+  destruct P as [|c0 P0] eqn:EP.
+  - right. left. exact Hln.
+  - rewrite <- EP in *. assert (P <> []) as Hne by (subst; discriminate). clear EP.
+    destruct (complete_last_line P HP Hne) as [Q [ln0 [-> [HQ Hln0]]]].
+    (* count_nl t = count_nl Q + 1 *)
+    destruct (Nat.le_gt_cases (count_nl Q + 1) line) as [Hle|Hgt].
+    + right. right. exists Q, ln0, ln. split; [now rewrite <- !app_assoc|]. now repeat split.
+    + left. destruct (split_at_line ((Q ++ ln0 ++ [NL]) ++ ln) line) as [[P1 [r1 [E [HP1 Hc1]]]]|Hlt].
+      * destruct (first_line r1) as [Hr1|[l1 [r' [-> Hl1]]]].
+        -- exfalso. assert (count_nl ((Q ++ ln0 ++ [NL]) ++ ln) = count_nl P1) as Ec
+             by (rewrite E, count_nl_app, (count_nl_nonl r1 Hr1); lia).
+           rewrite !count_nl_app, (count_nl_nonl ln Hln), (count_nl_nonl ln0 Hln0) in Ec. cbn in Ec. lia.
+        -- exists P1, l1, r'. now repeat split.
+      * exfalso. rewrite !count_nl_app, (count_nl_nonl ln Hln), (count_nl_nonl ln0 Hln0) in Hlt. cbn in Hlt. lia.
+Qed.
+
+(* totality: position_to_index never panics, on any text and any position, and answers an index
+   inside the text (or its end) *)
+Theorem position_to_index_total (t : text) (line col : nat) :
+  exists i, position_to_index t line col = Ok i /\ i <= length t.
+Proof.
+  destruct (p2i_cases t line) as [[P [ln [r [-> [HP [Hc Hln]]]]]]|[Ht|[Q [ln0 [ln [-> [HQ [Hln0 [Hln Hc]]]]]]]]].
+  - eexists. split; [now apply p2i_terminated|].
+    pose proof (col_result_bound (length P) (ln ++ [NL]) col) as B.
+    rewrite !app_length in *. cbn [length] in *. lia.
+  - eexists. split; [now apply p2i_single_line|].
+    pose proof (col_result_bound 0 t col) as B. lia.
+  - eexists. split; [now apply p2i_last_terminated|].
+    pose proof (col_result_bound (length Q) (ln0 ++ [NL]) col) as B.
+    rewrite !app_length in *. cbn [length] in *. lia.
+Qed.
+
+(* ------------------------------------------------------------------------------------------ *)
+(*  what a valid position is (inversion of the specification)                                   *)
+(* ------------------------------------------------------------------------------------------ *)
+Lemma skip_lines_inv (t : text) : forall l rest,
+  skip_lines t l = Some rest -> exists P, t = P ++ rest /\ complete P /\ count_nl P = l.
+Proof.
+  induction t as [|c t IH]; intros l rest H.
+  - destruct l; [|discriminate]. injection H as <-. exists []. repeat split. apply complete_nil.
+  - destruct l as [|l].
+    + injection H as <-. exists []. repeat split. apply complete_nil.
+    + cbn [skip_lines] in H. destruct (is_nl c) eqn:E.
+      * apply IH in H as [P [-> [HP Hc]]]. apply is_nl_true in E. subst c.
+        exists (NL :: P). split; [reflexivity|]. split.
+        -- destruct HP as [->|[P' ->]]; [right; now exists []|right; now exists (NL :: P')].
+        -- rewrite count_nl_cons, is_nl_NL. lia.
+      * apply IH in H as [P [-> [HP Hc]]].
+        exists (c :: P). split; [reflexivity|]. split.
+        -- apply complete_cons; [exact HP|]. intros ->. cbn in Hc. discriminate.
+        -- rewrite count_nl_cons, E. exact Hc.
+Qed.
+
+(* a walk of `col` code units over a line (ln, followed by the end of the text or a newline) *)
+Lemma walk_col_inv (ln r : text) : forall col k,
+  nonl ln -> (r = [] \/ exists r', r = NL :: r') ->
+  walk_col (ln ++ r) col = Some k -> k <= length ln /\ sum_utf16 (firstn k ln) = col.
+Proof.
+  induction ln as [|c ln IH]; intros col k Hln Hr H.
+  - cbn [app] in H. destruct col as [|n].
+    + assert (k = 0) by (destruct r; cbn in H; congruence). subst. cbn. lia.
+    + exfalso. destruct Hr as [->|[r' ->]]; cbn [walk_col] in H; [discriminate|].
+      rewrite is_nl_NL in H. discriminate.
+  - apply nonl_inv in Hln as [Hc Hl]. cbn [app] in H. destruct col as [|n].
+    + cbn in H. injection H as <-. cbn. lia.
+    + cbn [walk_col] in H. rewrite Hc in H.
+      destruct (S n <? len_utf16 c) eqn:E; [discriminate|]. apply Nat.ltb_ge in E.
+      destruct (walk_col (ln ++ r) (S n - len_utf16 c)) as [k'|] eqn:W; [|discriminate].
+      cbn in H. injection H as <-. destruct (IH _ _ Hl Hr W) as [B S'].
+      cbn [length firstn]. rewrite sum_utf16_cons. lia.
+Qed.
+
+Lemma resolve_inv (t : text) (line col i : nat) :
+  resolve t (line, col) = Some i ->
+  exists P ln r k, t = P ++ ln ++ r /\ complete P /\ count_nl P = line /\ nonl ln /\
+    (r = [] \/ exists r', r = NL :: r') /\
+    k <= length ln /\ sum_utf16 (firstn k ln) = col /\ i = length P + k.
+Proof.
+  unfold resolve. cbn [fst snd]. intros H.
+  destruct (skip_lines t line) as [rest|] eqn:S'; [|discriminate].
+  destruct (walk_col rest col) as [k|] eqn:W; [|discriminate]. injection H as <-.
+  apply skip_lines_inv in S' as [P [-> [HP Hc]]].
+  destruct (first_line rest) as [Hr|[ln [r' [-> Hln]]]].
+  - exists P, rest, [], k. rewrite app_nil_r.
+    rewrite <- (app_nil_r rest) in W. destruct (walk_col_inv rest [] col k Hr (or_introl eq_refl) W) as [B S'].
+    repeat split; try assumption; [now left|]. rewrite app_length. lia.
+  - exists P, ln, (NL :: r'), k.
+    destruct (walk_col_inv ln (NL :: r') col k Hln (or_intror (ex_intro _ r' eq_refl)) W) as [B S'].
+    repeat split; try assumption; [right; now exists r'|]. rewrite !app_length. lia.
+Qed.
+
+(* the answer of the column loop for a column that the specification accepts *)
+Lemma col_result_valid start (ln tail : text) k :
+  k <= length ln ->
+  col_result start (ln ++ tail) (sum_utf16 (firstn k ln)) =
+    if (k =? length ln) && (match tail with [] => true | _ => false end) then start + length ln
+    else start + k.
+Proof.
+  intros Hk.
+  destruct (Nat.eq_dec k (length ln)) as [->|Hne].
+  - rewrite Nat.eqb_refl, firstn_all. cbn [andb]. destruct tail as [|c tail].
+    + rewrite app_nil_r. apply col_result_end.
+    + apply col_result_inside.
+  - apply Nat.eqb_neq in Hne as Hb. rewrite Hb. cbn [andb]. apply Nat.eqb_neq in Hb.
+    rewrite <- (firstn_skipn k ln) at 1. rewrite <- app_assoc.
+    destruct (skipn k ln) as [|c rest] eqn:E.
+    + exfalso. assert (length (skipn k ln) = 0) as Z by now rewrite E. rewrite skipn_length in Z. lia.
+    + cbn [app]. rewrite col_result_inside. rewrite firstn_length. f_equal. lia.
+Qed.
+
+(* ------------------------------------------------------------------------------------------ *)
+(*  C08_lookup: outside the known class position_to_index inverts `resolve`                     *)
+(* ------------------------------------------------------------------------------------------ *)
+Theorem lookup_correct (t : text) (line col i : nat) :
+  resolve t (line, col) = Some i -> ~ KnownClass t line -> position_to_index t line col = Ok i.
+Proof.
+  intros H HK.
+  destruct (resolve_inv t line col i H) as [P [ln [r [k [-> [HP [Hc [Hln [Hr [Hk [Hs ->]]]]]]]]]]].
+  destruct Hr as [->|[r' ->]].
+  - (* the final line, not terminated *)
+    destruct line as [|line].
+    + apply (complete_count_0 P HP) in Hc. subst P. cbn [app length plus]. rewrite app_nil_r.
+      rewrite (p2i_single_line ln 0 col Hln). f_equal. rewrite <- Hs.
+      rewrite <- (app_nil_r ln) at 1. rewrite col_result_valid by lia.
+      cbn [andb]. destruct (k =? length ln) eqn:E; [apply Nat.eqb_eq in E; now subst|reflexivity].
+    + exfalso. apply HK. unfold KnownClass. split; [lia|].
+      rewrite app_nil_r, count_nl_app, (count_nl_nonl ln Hln). lia.
+  - rewrite (p2i_terminated P ln r' line col HP Hc Hln). f_equal. rewrite <- Hs.
+    rewrite col_result_valid by lia. now rewrite andb_false_r.
+Qed.
+
+(* ... and inside the known class it never does: KnownClass is exactly the set of failures *)
+Theorem lookup_known_class_wrong (t : text) (line col i : nat) :
+  resolve t (line, col) = Some i -> KnownClass t line ->
+  exists j, position_to_index t line col = Ok j /\ j < i.
+Proof.
+  intros H [H1 HK].
+  destruct (resolve_inv t line col i H) as [P [ln [r [k [-> [HP [Hc [Hln [Hr [Hk [Hs ->]]]]]]]]]]].
+  destruct Hr as [->|[r' ->]].
+  2:{ exfalso. rewrite !count_nl_app, count_nl_cons, is_nl_NL in HK. lia. }
+  rewrite app_nil_r. assert (P <> []) as Hne by (intros ->; cbn in Hc; lia).
+  destruct (complete_last_line P HP Hne) as [Q [ln0 [-> [HQ Hln0]]]].
+  assert (count_nl Q + 1 = line) as HcQ.
+  { rewrite !count_nl_app, (count_nl_nonl ln0 Hln0) in Hc. cbn in Hc. lia. }
+  replace ((Q ++ ln0 ++ [NL]) ++ ln) with (Q ++ ln0 ++ NL :: ln) by (now rewrite <- !app_assoc).
+  rewrite (p2i_last_terminated Q ln0 ln line col HQ Hln0 Hln) by lia.
+  eexists. split; [reflexivity|].
+  rewrite !app_length. cbn [length].
+  destruct col as [|col].
+  - replace (ln0 ++ [NL]) with ((ln0 ++ [NL])) by reflexivity.
+    destruct (ln0 ++ [NL]) as [|c seg] eqn:E; [now destruct ln0|]. rewrite col_result_0. lia.
+  - pose proof (col_result_bound (length Q) (ln0 ++ [NL]) (S col)) as B.
+    rewrite app_length in B. cbn [length] in B.
+    assert (1 <= k). { destruct k; [cbn in Hs; discriminate|lia]. }
+    lia.
+Qed.
+
+(* ------------------------------------------------------------------------------------------ *)
+(*  range_to_span and the lint selection of generate_code_actions                               *)
+(* ------------------------------------------------------------------------------------------ *)
+Theorem range_to_span_correct (t : text) (p1 p2 : position) (i1 i2 : nat) :
+  resolve t p1 = Some i1 -> resolve t p2 = Some i2 -> i1 <= i2 ->
+  ~ KnownClass t (fst p1) -> ~ KnownClass t (fst p2) ->
+  range_to_span t (p1, p2) = Ok (mkspan i1 i2).
+Proof.
+  destruct p1 as [l1 c1], p2 as [l2 c2]. cbn [fst]. intros R1 R2 Hle K1 K2.
+  unfold range_to_span. rewrite (lookup_correct t l1 c1 i1 R1 K1), (lookup_correct t l2 c2 i2 R2 K2).
+  cbn [bind]. unfold span_new. destruct (i2 <? i1) eqn:E; [apply Nat.ltb_lt in E; lia|reflexivity].
+Qed.
+
+Definition covers (i : nat) (l : span) : bool := (sstart l <=? i) && (i <? send l).
+
+Lemma overlaps_cursor (l : span) (i : nat) : overlaps l (with_len (mkspan i i) 1) = covers i l.
+Proof.
+  unfold overlaps, with_len, covers. cbn [sstart send].
+  destruct (sstart l <=? i) eqn:A; destruct (sstart l <? i + 1) eqn:B; try reflexivity.
+  - apply Nat.leb_le in A. apply Nat.ltb_ge in B. lia.
+  - apply Nat.leb_gt in A. apply Nat.ltb_lt in B. lia.
+Qed.
+
+(* generate_code_actions offers exactly the lints that contain the character under the start of
+   the requested range *)
+Theorem selected_correct (t : text) (p1 p2 : position) (i1 i2 : nat) (lints : list span) :
+  resolve t p1 = Some i1 -> resolve t p2 = Some i2 -> i1 <= i2 ->
+  ~ KnownClass t (fst p1) -> ~ KnownClass t (fst p2) ->
+  selected t (p1, p2) lints = Ok (filter (covers i1) lints).
+Proof.
+  intros R1 R2 Hle K1 K2. unfold selected, lookup_span.
+  rewrite (range_to_span_correct t p1 p2 i1 i2 R1 R2 Hle K1 K2). cbn [bind]. f_equal.
+  apply filter_ext. intros l. unfold overlaps, with_len, covers. cbn [sstart send].
+  destruct (sstart l <=? i1) eqn:A; destruct (sstart l <? i1 + 1) eqn:B; try reflexivity.
+  - apply Nat.leb_le in A. apply Nat.ltb_ge in B. lia.
+  - apply Nat.leb_gt in A. apply Nat.ltb_lt in B. lia.
+Qed.
+
+(* hence: a request whose start lies inside a lint's (non-empty) span gets that lint *)
+Theorem code_action_selected (t : text) (p1 p2 : position) (i1 i2 : nat) (lints : list span) (sp : span) :
+  resolve t p1 = Some i1 -> resolve t p2 = Some i2 -> i1 <= i2 ->
+  ~ KnownClass t (fst p1) -> ~ KnownClass t (fst p2) ->
+  In sp lints -> sstart sp <= i1 < send sp ->
+  exists sel, selected t (p1, p2) lints = Ok sel /\ In sp sel.
+Proof.
+  intros R1 R2 Hle K1 K2 Hin [Ha Hb]. eexists. split; [now apply (selected_correct t p1 p2 i1 i2)|].
+  apply filter_In. split; [exact Hin|]. unfold covers.
+  apply andb_true_iff. split; [now apply Nat.leb_le|now apply Nat.ltb_lt].
+Qed.
+
+(* ------------------------------------------------------------------------------------------ *)
+(*  the code with fixes/F9.diff applied                                                         *)
+(* ------------------------------------------------------------------------------------------ *)
+Lemma nl0_length (t : text) (line : nat) :
+  length (firstn (line + 1) (newline_indices t)) = Nat.min (line + 1) (count_nl t).
+Proof. unfold newline_indices. now rewrite firstn_length, nli_length. Qed.
+
+(* outside the known class the patch changes nothing *)
+Lemma p2i_fixed_outside (t : text) (line col : nat) :
+  ~ KnownClass t line -> position_to_index_fixed t line col = position_to_index t line col.
+Proof.
+  intros HK. unfold position_to_index_fixed, position_to_index. cbv zeta.
+  destruct (1 <=? line) eqn:E1; [|reflexivity].
+  destruct (length (firstn (line + 1) (newline_indices t)) =? line) eqn:E2; [|reflexivity].
+  exfalso. apply HK. apply Nat.leb_le in E1. apply Nat.eqb_eq in E2. rewrite nl0_length in E2.
+  unfold KnownClass. lia.
+Qed.
+
+(* on the final line the patched code walks the final line *)
+Lemma p2i_fixed_final (P ln : text) (line col : nat) :
+  complete P -> count_nl P = line -> 1 <= line -> nonl ln -> (ln <> [] \/ col = 0) ->
+  position_to_index_fixed (P ++ ln) line col = Ok (col_result (length P) ln col).
+Proof.
+  intros HP Hc H1 Hln Hcond. unfold position_to_index_fixed. cbv zeta.
+  assert (firstn (line + 1) (newline_indices (P ++ ln)) = newline_indices P) as Hnl.
+  { unfold newline_indices. rewrite nli_app, (nli_nonl _ ln Hln), app_nil_r.
+    apply firstn_all2. rewrite nli_length. lia. }
+  rewrite Hnl. unfold newline_indices at 1. rewrite nli_length, Hc, Nat.eqb_refl.
+  rewrite (nli_complete_last0 P HP).
+  assert ((1 <=? line) = true) as -> by now apply Nat.leb_le.
+  assert ((length P <? length (P ++ ln)) || (col =? 0) = true) as ->.
+  { destruct Hcond as [Hne| ->]; [|now rewrite orb_true_r].
+    apply orb_true_iff. left. apply Nat.ltb_lt. rewrite app_length.
+    destruct ln; [congruence|cbn [length]; lia]. }
+  cbn [andb]. apply p2i_unfold with (e := length (P ++ ln)).
+  - apply last_snoc.
+  - rewrite removelast_last. apply (nli_complete_last0 P HP).
+  - rewrite <- (app_nil_r ln) at 1. apply slice_chk_mid; [reflexivity|]. now rewrite app_length.
+  - now rewrite app_length.
+Qed.
+
+Theorem lookup_fixed_correct (t : text) (line col i : nat) :
+  resolve t (line, col) = Some i -> position_to_index_fixed t line col = Ok i.
+Proof.
+  intros H.
+  destruct (resolve_inv t line col i H) as [P [ln [r [k [E [HP [Hc [Hln [Hr [Hk [Hs Hi]]]]]]]]]]].
+  destruct Hr as [->|[r' ->]].
+  - destruct line as [|line].
+    + rewrite p2i_fixed_outside by (unfold KnownClass; lia). apply lookup_correct; [exact H|unfold KnownClass; lia].
+    + subst t. rewrite app_nil_r.
+      assert (ln <> [] \/ col = 0) as Hcond.
+      { destruct ln; [right|left; discriminate]. rewrite firstn_nil in Hs. cbn in Hs. now symmetry. }
+      assert (1 <= S line) as H1 by lia.
+      rewrite (p2i_fixed_final P ln (S line) col HP Hc H1 Hln Hcond).
+      f_equal. subst i. rewrite <- Hs. rewrite <- (app_nil_r ln) at 1. rewrite col_result_valid by lia.
+      cbn [andb]. destruct (k =? length ln) eqn:Ek; [apply Nat.eqb_eq in Ek; now subst|reflexivity].
+  - assert (~ KnownClass t line) as HK.
+    { unfold KnownClass. subst t. rewrite !count_nl_app, count_nl_cons, is_nl_NL. lia. }
+    rewrite (p2i_fixed_outside t line col HK). now apply lookup_correct.
+Qed.
+
+(* the patched code is total as well *)
+Theorem position_to_index_fixed_total (t : text) (line col : nat) :
+  exists i, position_to_index_fixed t line col = Ok i /\ i <= length t.
+Proof.
+  destruct (Nat.le_gt_cases 1 line) as [H1|H0].
+  2:{ rewrite p2i_fixed_outside by (unfold KnownClass; lia). apply position_to_index_total. }
+  destruct (Nat.eq_dec (count_nl t) line) as [Hc|Hc].
+  2:{ rewrite p2i_fixed_outside by (unfold KnownClass; lia). apply position_to_index_total. }
+  destruct (split_last_line t) as [P [ln [-> [HP Hln]]]].
+  assert (count_nl P = line) as HcP by (rewrite count_nl_app, (count_nl_nonl ln Hln) in Hc; lia).
+  destruct ln as [|c ln].
+  - destruct col as [|col].
+    + rewrite (p2i_fixed_final P [] line 0 HP HcP H1 Hln) by now right.
+      eexists. split; [reflexivity|]. unfold col_result. cbn. rewrite app_length. cbn. lia.
+    + (* empty final line, column > 0: the patch does not apply (pinned tests), old behaviour *)
+      assert (position_to_index_fixed (P ++ []) line (S col) = position_to_index (P ++ []) line (S col)) as ->.
+      { unfold position_to_index_fixed, position_to_index. cbv zeta.
+        assert (firstn (line + 1) (newline_indices (P ++ [])) = newline_indices P) as Hnl.
+        { rewrite app_nil_r. apply firstn_all2. unfold newline_indices. rewrite nli_length. lia. }
+        rewrite Hnl, (nli_complete_last0 P HP). rewrite app_nil_r, Nat.ltb_irrefl.
+        cbn [Nat.eqb orb]. now rewrite andb_false_r. }
+      apply position_to_index_total.
+  - rewrite (p2i_fixed_final P (c :: ln) line col HP HcP H1 Hln) by (left; discriminate).
+    eexists. split; [reflexivity|].
+    pose proof (col_result_bound (length P) (c :: ln) col) as B. rewrite app_length. lia.
+Qed.
+
+Theorem range_to_span_fixed_correct (t : text) (p1 p2 : position) (i1 i2 : nat) :
+  resolve t p1 = Some i1 -> resolve t p2 = Some i2 -> i1 <= i2 ->
+  range_to_span_fixed t (p1, p2) = Ok (mkspan i1 i2).
+Proof.
+  destruct p1 as [l1 c1], p2 as [l2 c2]. intros R1 R2 Hle.
+  unfold range_to_span_fixed. rewrite (lookup_fixed_correct t l1 c1 i1 R1), (lookup_fixed_correct t l2 c2 i2 R2).
+  cbn [bind]. unfold span_new. destruct (i2 <? i1) eqn:E; [apply Nat.ltb_lt in E; lia|reflexivity].
+Qed.
+
+Theorem selected_fixed_correct (t : text) (p1 p2 : position) (i1 i2 : nat) (lints : list span) :
+  resolve t p1 = Some i1 -> resolve t p2 = Some i2 -> i1 <= i2 ->
+  selected_fixed t (p1, p2) lints = Ok (filter (covers i1) lints).
+Proof.
+  intros R1 R2 Hle. unfold selected_fixed, lookup_span_fixed.
+  rewrite (range_to_span_fixed_correct t p1 p2 i1 i2 R1 R2 Hle). cbn [bind]. f_equal.
+  apply filter_ext. intros l. unfold overlaps, with_len, covers. cbn [sstart send].
+  destruct (sstart l <=? i1) eqn:A; destruct (sstart l <? i1 + 1) eqn:B; try reflexivity.
+  - apply Nat.leb_le in A. apply Nat.ltb_ge in B. lia.
+  - apply Nat.leb_gt in A. apply Nat.ltb_lt in B. lia.
+Qed.
+
+(* ------------------------------------------------------------------------------------------ *)
+(*  C08_edit_equiv: the TextEdit, applied by a client, is Suggestion::apply                     *)
+(* ------------------------------------------------------------------------------------------ *)
+Lemma get_content_in (t : text) (sp : span) :
+  span_in (length t) sp -> get_content sp t = Ok (slice t (sstart sp) (send sp)).
+Proof.
+  intros [H1 H2]. unfold get_content, try_get_content.
+  destruct (send sp <? sstart sp) eqn:E1; [apply Nat.ltb_lt in E1; lia|].
+  destruct (length t <? send sp) eqn:E3; [apply Nat.ltb_lt in E3; lia|].
+  destruct (length t <=? sstart sp) eqn:E2; cbn [orb bind].
+  - apply Nat.leb_le in E2. unfold span_len, sub_chk. rewrite E1. cbn [bind].
+    assert (send sp - sstart sp = 0) as -> by lia. cbn [Nat.eqb]. unfold slice.
+    assert (send sp - sstart sp = 0) as -> by lia. reflexivity.
+  - reflexivity.
+Qed.
+
+Lemma new_text_in (s : suggestion) (t : text) (sp : span) :
+  span_in (length t) sp -> new_text s sp t = Ok (repl s (slice t (sstart sp) (send sp))).
+Proof.
+  intros H. destruct s as [cs|cs|]; cbn [new_text repl]; try reflexivity.
+  rewrite (get_content_in t sp H). reflexivity.
+Qed.
+
+Theorem edit_equiv (s : suggestion) (sp : span) (t : text) :
+  span_in (length t) sp ->
+  exists r nt out,
+    text_edit s sp t = Ok (r, nt) /\ client_apply t r nt = Some out /\ apply s sp t = Ok out.
+Proof.
+  intros H. destruct (span_to_range_sound t sp H) as [pa [pb [E [Ra Rb]]]].
+  exists (pa, pb), (repl s (slice t (sstart sp) (send sp))), (splice s sp t).
+  split; [|split].
+  - unfold text_edit. rewrite E, (new_text_in s t sp H). reflexivity.
+  - unfold client_apply. cbn [fst snd]. rewrite Ra, Rb. destruct H as [H1 H2].
+    destruct (sstart sp <=? send sp) eqn:L; [reflexivity|apply Nat.leb_gt in L; lia].
+  - now apply apply_spec.
+Qed.
+
+(* the three kinds spelt out: what the client's document becomes *)
+Corollary edit_equiv_value (s : suggestion) (sp : span) (t : text) :
+  span_in (length t) sp ->
+  exists r nt,
+    text_edit s sp t = Ok (r, nt) /\
+    client_apply t r nt =
+      Some (firstn (sstart sp) t ++
+            match s with
+            | ReplaceWith cs => cs
+            | InsertAfter cs => slice t (sstart sp) (send sp) ++ cs
+            | Remove => []
+            end ++ skipn (send sp) t).
+Proof.
+  intros H. destruct (edit_equiv s sp t H) as [r [nt [out [E [C A]]]]].
+  exists r, nt. split; [exact E|]. rewrite C. f_equal.
+  rewrite (apply_spec s sp t H) in A. injection A as <-. unfold splice. now destruct s.
+Qed.
+
+(* ------------------------------------------------------------------------------------------ *)
+(*  LSP line ends ("\n", "\r\n", "\r") versus harper's ("\n")                                   *)
+(* ------------------------------------------------------------------------------------------ *)
+Lemma is_cr_true c : is_cr c = true -> c = CR.
+Proof. unfold is_cr, CR. intros H. now apply N.eqb_eq in H. Qed.
+
+Lemma is_cr_not_nl c : is_cr c = true -> is_nl c = false.
+Proof. intros H. apply is_cr_true in H. now subst. Qed.
+
+Lemma no_lone_cr_app a b : no_lone_cr (a ++ b) -> no_lone_cr b.
+Proof. induction a as [|c a IH]; [trivial|]. cbn [app no_lone_cr]. intros [_ H]. now apply IH. Qed.
+
+(* without a lone "\r" the LSP lines are harper's lines *)
+Lemma skip_lines_lsp_eq_n (n : nat) : forall t l,
+  length t <= n -> no_lone_cr t -> skip_lines_lsp t l = skip_lines t l.
+Proof.
+  induction n as [|n IH]; intros t l Hn Ht.
+  - destruct t; [|cbn in Hn; lia]. now destruct l.
+  - destruct t as [|c t]; [now destruct l|]. destruct l as [|l]; [reflexivity|].
+    cbn [length] in Hn. destruct Ht as [Hc Ht]. cbn [skip_lines_lsp skip_lines].
+    destruct (is_nl c) eqn:E; [apply IH; [lia|exact Ht]|].
+    destruct (is_cr c) eqn:Ec; [|apply IH; [lia|exact Ht]].
+    destruct (Hc eq_refl) as [t'' ->]. rewrite is_nl_NL. cbn [skip_lines]. rewrite is_nl_NL.
+    destruct Ht as [_ Ht'']. apply IH; [cbn [length] in Hn; lia|exact Ht''].
+Qed.
+
+Lemma skip_lines_lsp_eq t l : no_lone_cr t -> skip_lines_lsp t l = skip_lines t l.
+Proof. apply (skip_lines_lsp_eq_n (length t)). lia. Qed.
+
+(* the LSP walk is the stricter one *)
+Lemma walk_col_lsp_sub (rest : text) : forall col k, walk_col_lsp rest col = Some k -> walk_col rest col = Some k.
+Proof.
+  induction rest as [|c rest IH]; intros col k H.
+  - destruct col; [exact H|discriminate].
+  - destruct col as [|n]; [exact H|]. cbn [walk_col_lsp] in H. cbn [walk_col].
+    destruct (is_nl c) eqn:E; [discriminate|]. destruct (is_cr c); [discriminate|]. cbn [orb] in H.
+    destruct (S n <? len_utf16 c); [discriminate|].
+    destruct (walk_col_lsp rest (S n - len_utf16 c)) as [k'|] eqn:W; [|discriminate].
+    rewrite (IH _ _ W). exact H.
+Qed.
+
+(* ... and where harper's walk succeeds, either LSP's does too or it stopped between "\r" and "\n" *)
+Lemma walk_col_bridge (rest : text) : forall col k,
+  no_lone_cr rest -> walk_col rest col = Some k ->
+  walk_col_lsp rest col = Some k \/ exists a b, rest = a ++ CR :: NL :: b /\ k = length a + 1.
+Proof.
+  induction rest as [|c rest IH]; intros col k Hn H.
+  - destruct col; [now left|discriminate].
+  - destruct col as [|n]; [now left|]. cbn [walk_col] in H. cbn [walk_col_lsp].
+    destruct (is_nl c) eqn:E; [discriminate|]. cbn [orb].
+    destruct (S n <? len_utf16 c) eqn:L; [discriminate|].
+    destruct (walk_col rest (S n - len_utf16 c)) as [k'|] eqn:W; [|discriminate].
+    cbn in H. injection H as <-. destruct Hn as [Hc Hn].
+    destruct (is_cr c) eqn:Ec.
+    + right. destruct (Hc eq_refl) as [t'' ->]. apply is_cr_true in Ec. subst c.
+      exists [], t''. split; [reflexivity|].
+      destruct (S n - len_utf16 CR) as [|m]; cbn [walk_col] in W.
+      * injection W as <-. reflexivity.
+      * rewrite is_nl_NL in W. discriminate.
+    + destruct (IH _ _ Hn W) as [W'|[a [b [-> ->]]]].
+      * left. now rewrite W'.
+      * right. exists (c :: a), b. split; [reflexivity|]. cbn [length]. lia.
+Qed.
+
+Theorem resolve_lsp_sub (t : text) (p : position) (i : nat) :
+  no_lone_cr t -> resolve_lsp t p = Some i -> resolve t p = Some i.
+Proof.
+  intros Hn. unfold resolve_lsp, resolve. rewrite (skip_lines_lsp_eq t (fst p) Hn).
+  destruct (skip_lines t (fst p)) as [rest|]; [|discriminate].
+  destruct (walk_col_lsp rest (snd p)) as [k|] eqn:W; [|discriminate].
+  now rewrite (walk_col_lsp_sub rest _ _ W).
+Qed.
+
+Theorem resolve_lsp_bridge (t : text) (p : position) (i : nat) :
+  no_lone_cr t -> resolve t p = Some i -> ~ inside_crlf t i -> resolve_lsp t p = Some i.
+Proof.
+  intros Hn H Hi. unfold resolve_lsp. unfold resolve in H. rewrite (skip_lines_lsp_eq t (fst p) Hn).
+  destruct (skip_lines t (fst p)) as [rest|] eqn:S'; [|discriminate].
+  destruct (walk_col rest (snd p)) as [k|] eqn:W; [|discriminate]. injection H as <-.
+  apply skip_lines_inv in S' as [P [-> [HP Hc]]].
+  destruct (walk_col_bridge rest (snd p) k (no_lone_cr_app P rest Hn) W) as [W'|[a [b [-> ->]]]].
+  - now rewrite W'.
+  - exfalso. apply Hi. exists (P ++ a), b. split; [now rewrite <- app_assoc|].
+    rewrite !app_length. cbn [length]. lia.
+Qed.
+
+(* the three headline statements, read with LSP line ends *)
+Theorem index_to_position_sound_lsp (t : text) (i : nat) :
+  i <= length t -> no_lone_cr t -> ~ inside_crlf t i ->
+  exists p, index_to_position t i = Ok p /\ resolve_lsp t p = Some i.
+Proof.
+  intros Hi Hn Hc. destruct (index_to_position_sound t i Hi) as [p [E R]].
+  exists p. split; [exact E|now apply resolve_lsp_bridge].
+Qed.
+
+Theorem lookup_correct_lsp (t : text) (line col i : nat) :
+  no_lone_cr t -> resolve_lsp t (line, col) = Some i -> ~ KnownClass t line ->
+  position_to_index t line col = Ok i.
+Proof. intros Hn H HK. apply lookup_correct; [now apply resolve_lsp_sub|exact HK]. Qed.
+
+Theorem lookup_fixed_correct_lsp (t : text) (line col i : nat) :
+  no_lone_cr t -> resolve_lsp t (line, col) = Some i -> position_to_index_fixed t line col = Ok i.
+Proof. intros Hn H. apply lookup_fixed_correct. now apply resolve_lsp_sub. Qed.
+
+Theorem edit_equiv_lsp (s : suggestion) (sp : span) (t : text) :
+  span_in (length t) sp -> no_lone_cr t ->
+  ~ inside_crlf t (sstart sp) -> ~ inside_crlf t (send sp) ->
+  exists r nt out,
+    text_edit s sp t = Ok (r, nt) /\ client_apply_lsp t r nt = Some out /\ apply s sp t = Ok out.
+Proof.
+  intros H Hn Ha Hb. destruct (span_to_range_sound t sp H) as [pa [pb [E [Ra Rb]]]].
+  exists (pa, pb), (repl s (slice t (sstart sp) (send sp))), (splice s sp t).
+  split; [|split].
+  - unfold text_edit. rewrite E, (new_text_in s t sp H). reflexivity.
+  - unfold client_apply_lsp. cbn [fst snd].
+    rewrite (resolve_lsp_bridge t pa _ Hn Ra Ha), (resolve_lsp_bridge t pb _ Hn Rb Hb).
+    destruct H as [H1 H2].
+    destruct (sstart sp <=? send sp) eqn:L; [reflexivity|apply Nat.leb_gt in L; lia].
+  - now apply apply_spec.
+Qed.
+
+(* the CR-LF premise cannot be dropped: "a\r\nb", index 2 *)
+Lemma crlf_premise_needed :
+  exists t i p, i <= length t /\ no_lone_cr t /\ inside_crlf t i /\
+    index_to_position t i = Ok p /\ resolve_lsp t p = None.
+Proof.
+  exists [97; 13; 10; 98]%N, 2, (0, 2). split; [cbn; lia|]. split.
+  - cbn. repeat split; try discriminate. intros _. now exists [98%N].
+  - split; [exists [97%N], [98%N]; now split|]. now vm_compute.
+Qed.
+
+(* ------------------------------------------------------------------------------------------ *)
+(*  F9: the witness                                                                             *)
+(* ------------------------------------------------------------------------------------------ *)
+(* "ab\ncd", position (1,0) denotes index 3 (the 'c'), position_to_index answers 0 *)
 Lemma lookup_refuted :
   exists t line col i,
     KnownClass t line /\ resolve t (line, col) = Some i /\ i < length t /\
